@@ -3,7 +3,7 @@ from pyvc.verify import Post, Case, Equiv
 from contracts import common
 
 PROPERTY = 'C02'
-REF_MODULES = ['ref_t', 'h_path', 'ref_extra', 'ref_core', 'ref_auto', 'ref_match', 'ref_reduce']
+REF_MODULES = ['ref_t', 'h_path', 'ref_extra', 'ref_core', 'ref_auto', 'ref_match', 'ref_reduce', 'ref_registry']
 TS = ['len(T.__ops__) == 1', 'T.__ops__[0] is T', 'len(S.__ops__) == 1', 'S.__ops__[0] is S', 'len(A.__ops__) == 1', 'A.__ops__[0] is A']
 
 
@@ -67,6 +67,14 @@ def contracts():
     cs += common.shared(extra, ['core.Call.__init__'])
     cs += common.shared(C03, ['core.Call.glomit'])
     cs += common.shared(C08, ['core.arg_val', 'core._ArgValuator.mode'])
+    # what counts as a spec among the arguments (a class that merely defines glomit is a literal), registry lookups of the 'P' step
+    from contracts import C13, C07, C14, C18, X_ctor
+    cs += common.shared(C03, ['core._has_callable_glomit'])
+    cs += common.shared(C13, ['core.TargetRegistry.get_handler', 'core.TargetRegistry.get_type_map', 'core.TargetRegistry._get_closest_type'])
+    cs += common.shared(C07, ['core._s_first_magic'])
+    cs += common.shared(C14, ['core._extend_children'])
+    cs += common.shared(C18, ['core.Path.__init__'])
+    cs += common.shared(X_ctor, ['core._ArgValuator.__init__'])
     return cs
 
 
